@@ -253,6 +253,8 @@ def analyse_function(params, body, module_defined, static_chain, is_module=False
                         continue  # already means the let binding of this function
                     if x in params:
                         raise Ambiguous("declaration of a parameter")
+                    if x in info.globals or x in info.nonlocals:
+                        raise Ambiguous("a name declared twice in one function")
                     if x in used_direct:
                         raise CompileError("decl-after-use", x)
                     if x in used_nested:
